@@ -15,7 +15,7 @@ template <class T> inline ld kappa_limit() { return sizeof(T) == 4 ? 1e3L : 1e6L
 
 // QT: QRCompType value (0 MGSR, 1 MGSRPiv). PF: 0 none, 1 vector, 2 matrix. ARG: 0 tensor, 1 expression (A+0).
 template <class T, size_t N, int QT, int PF, int ARG>
-void thunk(const T *a, T *q, T *r, T *pm, size_t *pv, T *det) {
+void thunk(const T *a, T *q, T *r, T *pm, size_t *pv, T *det) { vf::ArmedThunk vf_armed_;
   constexpr QRCompType qt = static_cast<QRCompType>(QT);
   Tensor<T, N, N> A; std::copy(a, a + N * N, A.data());
   Tensor<T, N, N> Q, R; Q.fill(T(77)); R.fill(T(-77));
